@@ -158,6 +158,8 @@ func ecKey(rec *hx.Record, fail func(string, string), ci *curveInfo, point []byt
 
 	mc := mcOf(didKey)
 	rec.Coq = fmt.Sprintf("CEC %d%%N %d%%nat (%s)%%Z (%s)%%Z %s", ci.code, ci.size, x.String(), y.String(), coqBytes(mc))
+	tr.Put(&hx.Record{Kind: rec.Kind + "-jwk", Case: rec.Case, Oracle: "ok", Class: rec.Class + ":jwk", Dist: []string{"jwk-ec-coordinates"},
+		Coq: fmt.Sprintf("CECJ %d%%nat (%s)%%Z (%s)%%Z %s %s", ci.size, x.String(), y.String(), hx.CoqString(jm["x"]), hx.CoqString(jm["y"]))})
 	rec.Observed = map[string]interface{}{"didkey": didKey}
 
 	expDID, expKID := fingerprint.CreateDIDKeyByCode(ci.code, comp)
